@@ -27,6 +27,9 @@ var (
 	MaxQosAllowed = message.QosExactlyOnce
 )
 
+// errClosed is returned by a MemTopics that has been closed.
+var errClosed = fmt.Errorf("memtopics: provider is closed")
+
 // MemTopics provides topics in memory.
 type MemTopics struct {
 	// Sub/unsub mutex
@@ -76,6 +79,10 @@ func (mt *MemTopics) Subscribe(topic []byte, qos byte, sub interface{}) (byte, e
 		qos = MaxQosAllowed
 	}
 
+	if mt.sroot == nil {
+		return message.QosFailure, errClosed
+	}
+
 	if err := mt.sroot.sinsert(topic, qos, sub); err != nil {
 		return message.QosFailure, err
 	}
@@ -87,6 +94,10 @@ func (mt *MemTopics) Subscribe(topic []byte, qos byte, sub interface{}) (byte, e
 func (mt *MemTopics) Unsubscribe(topic []byte, sub interface{}) error {
 	mt.smu.Lock()
 	defer mt.smu.Unlock()
+
+	if mt.sroot == nil {
+		return errClosed
+	}
 
 	return mt.sroot.sremove(topic, sub)
 }
@@ -103,6 +114,10 @@ func (mt *MemTopics) Subscribers(topic []byte, qos byte, subs *[]interface{}, qo
 	*subs = (*subs)[0:0]
 	*qoss = (*qoss)[0:0]
 
+	if mt.sroot == nil {
+		return errClosed
+	}
+
 	return mt.sroot.smatch(topic, qos, subs, qoss)
 }
 
@@ -110,6 +125,10 @@ func (mt *MemTopics) Subscribers(topic []byte, qos byte, subs *[]interface{}, qo
 func (mt *MemTopics) Retain(msg *message.PublishMessage) error {
 	mt.rmu.Lock()
 	defer mt.rmu.Unlock()
+
+	if mt.rroot == nil {
+		return errClosed
+	}
 
 	// So apparently, at least according to the MQTT Conformance/Interoperability
 	// Testing, that a payload of 0 means delete the retain message.
@@ -125,6 +144,10 @@ func (mt *MemTopics) Retain(msg *message.PublishMessage) error {
 func (mt *MemTopics) Retained(topic []byte, msgs *[]*message.PublishMessage) error {
 	mt.rmu.RLock()
 	defer mt.rmu.RUnlock()
+
+	if mt.rroot == nil {
+		return errClosed
+	}
 
 	return mt.rroot.rmatch(topic, msgs)
 }
